@@ -18,7 +18,7 @@ ANCHORS = ["runlengtharray.py::RunLengthArray._get_position", "runlengtharray.py
            "runlengtharray.py::RunLengthArray.__getitem__", "mixin.py::NPSIndexable.__getitem__"]
 KINDS = ["int", "list", "array", "boolarray", "boollist", "rlmask", "cmpmask", "slice", "windows"]
 FLOOR_TAGS = ["k:" + k for k in KINDS] + ["step:+1", "step:+k", "step:-1", "step:-k", "bounds:oob", "bounds:in", "result:empty", "mask:allfalse", "mask:alltrue", "int:negative",
-                                          "kind:b", "kind:i", "kind:u", "kind:f", "index:readonly", "k:virtual", "virtual:2**53", "virtual:2**31", "receiver:subclass", "step:huge", "windows:narrow-dtype", "windows:len-exceeds-dtype", "index:2d", "rlmask:astype", "rlmask:invert", "rlmask:used-before"]
+                                          "kind:b", "kind:i", "kind:u", "kind:f", "index:readonly", "k:virtual", "virtual:2**53", "virtual:2**31", "receiver:subclass", "step:huge", "windows:narrow-dtype", "windows:len-exceeds-dtype", "index:2d", "rlmask:astype", "rlmask:invert", "rlmask:used-before", "index:not-C-contiguous"]
 FLOOR_MONITORS = ["c15:compare", "c15:canonical", "inv:rla", "c15:arguments-unchanged"]
 FP_STRICT = True       # a floating-point event inside the library that the dense computation does not have is a violation (shard.FpMonitor)
 N_RANDOM = {"quick": 24000, "thorough": 300000}
@@ -164,7 +164,14 @@ def run(case):
         exp = v[np.array(idx, dtype=np.int64)]
         if kind == "array" and case.get("ishape"):
             # an index array with more than one dimension: the result has the shape of the index, as for the dense array
-            q = mine(np.array(idx, dtype=idt_).reshape(case["ishape"]))
+            q = np.array(idx, dtype=idt_).reshape(case["ishape"])
+            if (len(idx) + L) % 3 == 0 and q.size > 1:
+                q = np.asfortranarray(q)          # the same table of positions laid out column by column in memory (a transposed view, a Fortran-ordered file)
+                tags.append("index:not-C-contiguous")
+            elif (len(idx) + L) % 3 == 1 and q.ndim == 2:
+                q = np.ascontiguousarray(q.T).T
+                tags.append("index:not-C-contiguous")
+            q = mine(q)
             exp = v[np.array(idx, dtype=np.int64).reshape(case["ishape"])]
             tags.append("index:%dd" % len(case["ishape"]))
         a = attempt(lambda: r[q])
@@ -277,6 +284,19 @@ def run(case):
         c = rl.canonical(g, joined=bool(joined))
         if c:
             return violated("%s is not canonical: %s" % (desc, c), tags + ["not-canonical"])
+        # the result is a run-length array like any other -- also when it has no element at all: questions that are legal on a dense array of
+        # that length (no position, an all-false mask of its length, its first and last element, the whole of it) get the dense answers
+        n2 = len(exp)
+        CTX.tick("c15:result-indexed-again", n2 == 0)
+        follow = [("[]", lambda x: x[[]], exp[[]]), ("empty integer array", lambda x: x[np.array([], dtype=np.int64)], exp[np.array([], dtype=np.int64)]),
+                  ("all-false mask", lambda x: x[np.zeros(n2, dtype=bool)], exp[np.zeros(n2, dtype=bool)]), ("[:]", lambda x: x[:], exp[:])]
+        if n2:
+            follow += [("[0, -1]", lambda x: x[[0, -1]], exp[[0, -1]]), ("[::-1]", lambda x: x[::-1], exp[::-1])]
+        for nm_, f_, e_ in follow:
+            o_ = attempt(lambda: np.asarray(rl.decode(f_(g))) if isinstance(f_(g), RLA) else np.asarray(f_(g)))
+            if not o_.ok or not same_array(o_.value, np.asarray(e_), dtype=True):
+                return violated("%s, then %s on the result (%d elements): %s, numpy gives %s" % (desc, nm_, n2, repr(o_) if not o_.ok else "%s %s" % (o_.value.dtype, short(o_.value, 100)), short(e_, 100)),
+                                tags + ["result-indexed-again"])
     if not same_array(r.to_array(), v):
         return violated("%s modified the indexed array" % desc, tags)
     return held(tags, L >= 2)
